@@ -590,6 +590,7 @@ def _equality_joint(is_sparse: bool, newton: bool):
       efc_J_rownnz_out[worldid, efcid] = rownnz
       rowadr = wp.atomic_add(efc_nnz_out, worldid, rownnz)
       if rowadr + rownnz > njmax_nnz_in:
+        efc_J_rownnz_out[worldid, efcid] = 0
         return
       efc_J_rowadr_out[worldid, efcid] = rowadr
       efc_J_colind_out[worldid, 0, rowadr] = dofadr1
@@ -930,6 +931,7 @@ def _equality_flex(is_sparse: bool, newton: bool):
       efc_J_rownnz_out[worldid, efcid] = rownnz
       efc_rowadr = wp.atomic_add(efc_nnz_out, worldid, rownnz)
       if efc_rowadr + rownnz > njmax_nnz_in:
+        efc_J_rownnz_out[worldid, efcid] = 0
         return
       efc_J_rowadr_out[worldid, efcid] = efc_rowadr
       for i in range(rownnz):
@@ -1685,6 +1687,7 @@ def _equality_flexstrain(is_sparse: bool, newton: bool):
         efc_J_rownnz_out[worldid, efcid] = rownnz
         efc_rowadr = wp.atomic_add(efc_nnz_out, worldid, rownnz)
         if efc_rowadr + rownnz > njmax_nnz_in:
+          efc_J_rownnz_out[worldid, efcid] = 0
           return
         efc_J_rowadr_out[worldid, efcid] = efc_rowadr
       else:
@@ -1837,6 +1840,7 @@ def _friction_dof(is_sparse: bool, newton: bool):
       efc_J_rownnz_out[worldid, efcid] = 1
       rowadr = wp.atomic_add(efc_nnz_out, worldid, 1)
       if rowadr + 1 > njmax_nnz_in:
+        efc_J_rownnz_out[worldid, efcid] = 0
         return
       efc_J_rowadr_out[worldid, efcid] = rowadr
       efc_J_colind_out[worldid, 0, rowadr] = dofid
@@ -1947,6 +1951,7 @@ def _friction_tendon(is_sparse: bool, newton: bool):
       efc_J_rownnz_out[worldid, efcid] = rownnz_tenJ
       rowadr_efc = wp.atomic_add(efc_nnz_out, worldid, rownnz_tenJ)
       if rowadr_efc + rownnz_tenJ > njmax_nnz_in:
+        efc_J_rownnz_out[worldid, efcid] = 0
         return
       efc_J_rowadr_out[worldid, efcid] = rowadr_efc
 
@@ -2077,6 +2082,7 @@ def _limit_slide_hinge(is_sparse: bool, newton: bool):
         efc_J_rownnz_out[worldid, efcid] = 1
         rowadr = wp.atomic_add(efc_nnz_out, worldid, 1)
         if rowadr + 1 > njmax_nnz_in:
+          efc_J_rownnz_out[worldid, efcid] = 0
           return
         efc_J_rowadr_out[worldid, efcid] = rowadr
         efc_J_colind_out[worldid, 0, rowadr] = dofadr
@@ -2199,6 +2205,7 @@ def _limit_ball(is_sparse: bool, newton: bool):
         efc_J_rownnz_out[worldid, efcid] = 3
         rowadr = wp.atomic_add(efc_nnz_out, worldid, 3)
         if rowadr + 3 > njmax_nnz_in:
+          efc_J_rownnz_out[worldid, efcid] = 0
           return
         efc_J_rowadr_out[worldid, efcid] = rowadr
 
@@ -2332,6 +2339,7 @@ def _limit_tendon(is_sparse: bool, newton: bool):
         efc_J_rownnz_out[worldid, efcid] = rownnz_tenJ
         rowadr_efc = wp.atomic_add(efc_nnz_out, worldid, rownnz_tenJ)
         if rowadr_efc + rownnz_tenJ > njmax_nnz_in:
+          efc_J_rownnz_out[worldid, efcid] = 0
           return
         efc_J_rowadr_out[worldid, efcid] = rowadr_efc
 
